@@ -302,6 +302,18 @@ def check_stats(cur):
     for typ in sorted(required - present):
         if acc:
             cur.v('records_missing', type=typ, accepted_steps=len(acc), types_present=sorted(str(t) for t in present)[:30])
+    # records written once per run: keyed with the end time and the restart count of the last step the run finished
+    if '.LogGlobalErrorPostRun' in hooks_cfg and cur.attempts:
+        fin = [a for a in cur.attempts if 'post' in a]
+        recs = [k for k in stats.keys() if k.type == 'e_global_post_run']
+        if fin:
+            last = fin[-1]
+            t_end = last['time'] + last['post']['dt']
+            # (the hook is called once per step object of the controller: one record per process)
+            if not 1 <= len(recs) <= cur.cfg['P'] or len({k.process for k in recs}) != len(recs):
+                cur.v('post_run_record_count', type='e_global_post_run', records=len(recs), times=[float(k.time) for k in recs][:6])
+            elif any(k.time != t_end for k in recs):
+                cur.v('post_run_record_key', type='e_global_post_run', key_times=sorted({float(k.time) for k in recs}), run_ended_at=float(t_end), last_finished_step=(last['block'], last['slot']))
     for typ, (when, getter) in STAT_TYPES.items():
         if typ not in present:
             continue
